@@ -1,8 +1,8 @@
 ----------------------------- MODULE MCMatchSem -----------------------------
 EXTENDS MatchSem
 CONSTANT GridRows
-Small == {"bb", "i", "s", "mb"}
-AllScrut == {"bb", "e3", "e2b", "i", "ib", "s", "sb", "st", "st2", "st2b", "mb", "me", "bbb", "e3e2"}
+Small == {"bb", "i", "s", "mb", "ub", "mu"}
+AllScrut == {"bb", "e3", "e2b", "i", "ib", "s", "sb", "st", "st2", "st2b", "mb", "me", "bbb", "e3e2", "ub", "mu", "mub"}
 
 \* ---- the literal grid: every matrix of two rows over {_, literal} per column of a two-column scrutinee, closed by a catch-all
 \* (exhaustively enumerated: decision trees branch on one column and must keep the rows that share a literal there apart)
@@ -10,6 +10,15 @@ GridScrut == {"ib", "sb", "bb", "e2b"}
 GridScrutThorough == {"ib", "sb", "bb", "e2b", "st", "st2b", "e3e2"}
 NoVar(p) == p.k # "v" /\ (p.k \notin {"t", "c", "st"} \/ \A i \in DOMAIN p.ps : p.ps[i].k # "v")
 GridPats(t) == {p \in Pats(t, 1) : p.k \in {"t", "st"} /\ NoVar(p) /\ \A i \in DOMAIN p.ps : p.ps[i].k \in {"w", "b", "i", "s"}}
+\* the same grid over the scrutinees with a unit column, one level deeper (the unit sits under a constructor): every var-free pattern
+UnitGridScrut == {"ub", "mub"}
+RECURSIVE NoVarDeep(_)
+NoVarDeep(p) == p.k # "v" /\ (p.k \notin {"t", "c", "st"} \/ \A i \in DOMAIN p.ps : NoVarDeep(p.ps[i]))
+UnitGridPats(t) == {p \in Pats(t, 2) : p.k = "t" /\ NoVarDeep(p)}
+UnitGridInit == ty \in UnitGridScrut /\ rows = <<>> /\ done = FALSE
+UnitGridAddRow == /\ ~done /\ Len(rows) < GridRows
+                  /\ \E p \in UnitGridPats(TypeOfName(ty)) : rows' = Append(rows, p)
+                  /\ UNCHANGED <<ty, done>>
 GridInit == ty \in GridScrut /\ rows = <<>> /\ done = FALSE
 GridInitThorough == ty \in GridScrutThorough /\ rows = <<>> /\ done = FALSE
 GridAddRow == /\ ~done /\ Len(rows) < GridRows
@@ -17,4 +26,5 @@ GridAddRow == /\ ~done /\ Len(rows) < GridRows
               /\ UNCHANGED <<ty, done>>
 GridFinish == /\ ~done /\ Len(rows) = GridRows /\ rows' = Append(rows, PW) /\ done' = TRUE /\ UNCHANGED ty
 GridNext == GridAddRow \/ GridFinish
+UnitGridNext == UnitGridAddRow \/ GridFinish
 =============================================================================
